@@ -564,6 +564,15 @@ def _h(*ops):
 
 _N, _E = {"op": "New", "p": None}, {"op": "Enter", "c": 0}
 FIXED_HISTORIES = [
+    # two sibling contexts that inherited one suspending factory each generate their own, also when the two
+    # generations overlap (the one begun later ends first)
+    _h(_N, _E, {"op": "AddFactory", "c": 0, "f": 0, "kind": "FAsyncSusp", "name": "default", "types": [1], "desc": None},
+       {"op": "New", "p": 0}, {"op": "Enter", "c": 1}, {"op": "New", "p": 0}, {"op": "Enter", "c": 2},
+       {"op": "GetBegin", "c": 1, "tok": 0, "t": 1, "name": "default", "optional": False},
+       {"op": "GetBegin", "c": 2, "tok": 1, "t": 1, "name": "default", "optional": False},
+       {"op": "GetEnd", "c": 2, "tok": 1}, {"op": "GetNowait", "c": 2, "t": 1, "name": "default", "optional": True},
+       {"op": "GetEnd", "c": 1, "tok": 0}, {"op": "GetNowait", "c": 1, "t": 1, "name": "default", "optional": True},
+       {"op": "GetResources", "c": 2, "t": 1}),
     # F2: async lookup then child must not inherit the generated object
     _h(_N, _E, {"op": "AddFactory", "c": 0, "f": 0, "kind": "FAsyncImm", "name": "default", "types": [0], "desc": None},
        {"op": "GetBegin", "c": 0, "tok": 0, "t": 0, "name": "default", "optional": False},
